@@ -364,9 +364,7 @@ func (g *c16Gen) strct() *c16Struct {
 			if g.rng.Intn(3) == 0 && len(g.structs) > 0 {
 				mb.Ty = &c16Ty{K: "name", Name: g.structs[g.rng.Intn(len(g.structs))]}
 			}
-			if mb.Ty.K == "byte" && !g.opt.Gaps {
-				mb.Ty.K = "short"
-			}
+
 			if len(g.enums) > 0 && g.rng.Intn(3) == 0 {
 				mb.Ty = &c16Ty{K: "name", Name: g.enums[0].Name}
 			}
